@@ -73,6 +73,7 @@ type Contract struct {
 	Relies   []*Clause
 	CallAsserts []*CallAssert
 	CallInvs    []*CallAssert // callsite <callee> invariant <expr>: invariant of the callback iteration performed by the callee
+	Preserves   []string      // ghost variables the callee is assumed not to touch although it has no frame
 	Iterates    string        // name of the function-typed parameter the callee calls zero or more times (its only effect)
 	Yields      []*Clause     // constraints on the arguments passed to the callback (cb0, cb1, ...)
 	Assigns  []SExpr
@@ -142,7 +143,7 @@ func NewSpecSet() *SpecSet {
 	return &SpecSet{SpecFuncs: map[string]*SpecFunc{}, GhostVars: map[string]*GhostVar{}, AxiomPkg: map[*Clause]string{}}
 }
 
-var keywordRe = regexp.MustCompile(`^(iterates|yields|typepaths|package|func|prop|mode|requires|ensures|guarantee|rely|callsite|assigns|loop|let|eval|trusted|pure|maypanic|spec|ghost|axiom|lemma|end|noinline|inline|concurrent|safety|flag|terminates)\b`)
+var keywordRe = regexp.MustCompile(`^(preserves|iterates|yields|typepaths|package|func|prop|mode|requires|ensures|guarantee|rely|callsite|assigns|loop|let|eval|trusted|pure|maypanic|spec|ghost|axiom|lemma|end|noinline|inline|concurrent|safety|flag|terminates)\b`)
 
 // ParseSpecFile reads //@ lines from a Go file or a .gospec file.
 // defaultPkg is the package path of the directory for in-repo contract files.
@@ -399,6 +400,10 @@ func (ss *SpecSet) ParseSpecFile(path, defaultPkg string) {
 				name := strings.TrimSpace(rest[:i])
 				body := strings.TrimSpace(rest[i+1:])
 				cur.Lets = append(cur.Lets, LetDef{Name: name, Expr: parse(l, body), Text: body})
+			case "preserves":
+				for _, f := range strings.FieldsFunc(rest, func(r rune) bool { return r == ',' || r == ' ' }) {
+					cur.Preserves = append(cur.Preserves, f)
+				}
 			case "iterates":
 				cur.Iterates = strings.TrimSpace(rest)
 			case "yields":
